@@ -457,22 +457,24 @@ theorem challengeCore_spec (s : State) (c : Challenge) (t : Task) :
         challengeTooLate cur t.startingEpoch t.resp t.stat t.chal = false) ∧
       challengeCore s c t = (afterChallenge s c, "ok")) := by
   unfold challengeCore
+  by_cases h0 : c.abiPanics = true
+  · left; simp [h0]
   by_cases h1 : (!c.abiHashOk) = true
-  · left; simp [h1]
+  · left; simp only [h0, h1]; simp [*]
   by_cases h2 : KV.has s.challenges (c.op, c.taskAddr, c.id) = true
-  · left; simp only [h1, h2]; simp [*]
+  · left; simp only [h0, h1, h2]; simp [*]
   cases he : epochOfTaskAddr s t.taskAddr with
-  | none => left; simp only [h1, h2]; simp [*]
+  | none => left; simp only [h0, h1, h2]; simp [*]
   | some cur =>
     by_cases h3 : challengeTooSoon cur t.startingEpoch t.resp t.stat = true
-    · left; simp only [h1, h2, h3]; simp [*]
+    · left; simp only [h0, h1, h2, h3]; simp [*]
     by_cases h4 : challengeTooLate cur t.startingEpoch t.resp t.stat t.chal = true
-    · left; simp only [h1, h2, h3, h4]; simp [*]
+    · left; simp only [h0, h1, h2, h3, h4]; simp [*]
     by_cases h5 : (!c.callerOk) = true
-    · left; simp only [h1, h2, h3, h4, h5]; simp [*]
+    · left; simp only [h0, h1, h2, h3, h4, h5]; simp [*]
     right
     refine ⟨by simpa using h1, by simpa using h2, ⟨cur, rfl, by simpa using h3, by simpa using h4⟩, ?_⟩
-    simp only [h1, h2, h3, h4, h5]; simp [afterChallenge]
+    simp only [h0, h1, h2, h3, h4, h5]; simp [afterChallenge]
 
 /-- inversion of RaiseAndResolveChallenge -/
 theorem challenge_spec (s : State) (c : Challenge) :
